@@ -31,6 +31,9 @@ type LoadCfg struct {
 	Overlay map[string][]byte
 	// extra packages (import paths) whose SSA bodies are built in deep mode
 	BuildExtra []string
+	// Refs: virtual packages (module-relative dir -> source directory outside the repository) added through the source
+	// overlay: an independent upstream copy of vendored code, type-checked inside the repository's module
+	Refs map[string]string
 }
 
 type Ctx struct {
@@ -40,6 +43,7 @@ type Ctx struct {
 	ByPath  map[string]*packages.Package
 	Prog    *ssa.Program
 	Funcs   []*ssa.Function // all functions with bodies in module packages (incl. anonymous)
+	RefFuncs []*ssa.Function // functions of the virtual reference packages (upstream copies)
 	Built   map[*ssa.Package]bool
 	cg      *callgraph.Graph
 	ModMode string
@@ -75,14 +79,47 @@ func loadOnce(cfg LoadCfg, modFlag string) ([]*packages.Package, *token.FileSet,
 	if cfg.Deep {
 		mode = packages.LoadAllSyntax
 	}
+	overlay := map[string][]byte{}
+	for k, v := range cfg.Overlay {
+		overlay[k] = v
+	}
+	patterns := []string{"./..."}
+	var refDirs []string
+	for rel := range cfg.Refs {
+		refDirs = append(refDirs, rel)
+	}
+	sort.Strings(refDirs)
+	for _, rel := range refDirs {
+		src := cfg.Refs[rel]
+		ents, err := os.ReadDir(src)
+		if err != nil {
+			continue
+		}
+		n := 0
+		for _, e := range ents {
+			nm := e.Name()
+			if e.IsDir() || !strings.HasSuffix(nm, ".go") || strings.HasSuffix(nm, "_test.go") {
+				continue
+			}
+			b, err := os.ReadFile(filepath.Join(src, nm))
+			if err != nil {
+				continue
+			}
+			overlay[filepath.Join(cfg.Dir, rel, nm)] = b
+			n++
+		}
+		if n > 0 {
+			patterns = append(patterns, "./"+rel)
+		}
+	}
 	pc := &packages.Config{
 		Mode: mode | packages.NeedModule, Dir: cfg.Dir, Fset: fset, Env: env, Tests: false,
-		Overlay: cfg.Overlay,
+		Overlay: overlay,
 	}
 	if cfg.Tags != "" {
 		pc.BuildFlags = []string{"-tags=" + cfg.Tags}
 	}
-	pkgs, err := packages.Load(pc, "./...")
+	pkgs, err := packages.Load(pc, patterns...)
 	return pkgs, fset, err
 }
 
@@ -130,12 +167,19 @@ func Load(cfg LoadCfg) (*Ctx, error) {
 	}
 	nrepo := 0
 	for _, p := range pkgs {
-		if strings.HasPrefix(p.PkgPath, modPath) {
+		if strings.HasPrefix(p.PkgPath, modPath) && !strings.Contains(p.PkgPath, "/zz_ref_") {
 			nrepo++
 		}
 	}
 	if nrepo < 10 {
 		return nil, fmt.Errorf("only %d module packages loaded", nrepo)
+	}
+	// dependencies that go/packages parsed without type information (it does so when export data is unusable, e.g. below an
+	// overlay) must be treated as body-less by go/ssa
+	for _, p := range c.Pkgs {
+		if p.Syntax != nil && (p.TypesInfo == nil || len(p.TypesInfo.Defs) == 0 || (!cfg.Deep && !strings.HasPrefix(p.PkgPath, modPath))) {
+			p.Syntax = nil
+		}
 	}
 	tLoad := time.Since(t0)
 	t1 := time.Now()
@@ -162,6 +206,10 @@ func Load(cfg LoadCfg) (*Ctx, error) {
 			continue
 		}
 		if strings.HasPrefix(fn.Pkg.Pkg.Path(), modPath) {
+			if strings.Contains(fn.Pkg.Pkg.Path(), "/zz_ref_") {
+				c.RefFuncs = append(c.RefFuncs, fn)
+				continue
+			}
 			c.Funcs = append(c.Funcs, fn)
 			nfuncs++
 			for _, b := range fn.Blocks {
